@@ -45,3 +45,12 @@ package state
 //@   loop 1 invariant ret == loopentry(ret) && fresh(ret) && ret != nil
 //@   loop 1 invariant [keys] forall k corev1.ResourceName {k in ret} :: (k in ret) <==> ((k in snNodeCap(in)) || seen(k))
 //@   loop 1 invariant [vals] forall k corev1.ResourceName {ret[k]} :: ret[k] == ((seen(k) && snNodeCap(in)[k] == 0) ? snClaimCap(in)[k] : snNodeCap(in)[k])
+
+// ---- (1) Taints, filtered case: clauses wanted in addition to [unfiltered] of the main file (NOT checkable today) ----
+// lo.Reject over a slice of structs ([]corev1.Taint) returns an arbitrary slice in the engine (isStructLike -> "filtered"),
+// lo.Find has no stub, and the predicate closure contains a nested closure; IsKnownEphemeralTaint (C14) is only specified
+// in one direction ([listed] ==> result) and its prefix test uses strings.HasPrefix (arbitrary).
+//   ensures [hidden]  snHidesTaints(in) ==> forall j :: 0 <= j < len(result) ==> (!scheduling.IsKnownEphemeralTaint(&result[j])
+//                       && !(exists t :: 0 <= t < len(in.NodeClaim.Spec.StartupTaints) && sameKeyEffect(in.NodeClaim.Spec.StartupTaints[t], result[j])))
+//   ensures [subset]  snHidesTaints(in) ==> forall j :: 0 <= j < len(result) ==> exists i :: 0 <= i < len(snRawTaints(in)) && result[j] == snRawTaints(in)[i]   (order kept)
+//   ensures [kept]    snHidesTaints(in) ==> forall i :: (0 <= i < len(snRawTaints(in)) && !ephemeral(raw[i]) && !startup(raw[i])) ==> exists j :: result[j] == raw[i]
